@@ -12,7 +12,7 @@
 (***************************************************************************)
 EXTENDS Naturals, Sequences, FiniteSets, TLC, Json
 
-CONSTANTS Theme, L
+CONSTANTS Theme, L, Pre      \* Pre = "on": instance 1 first evaluates the theme's prelude (storage to share already exists)
 Ids == 1..3
 
 Sources ==
@@ -23,28 +23,38 @@ Sources ==
         << "5 var v", "v 1 + ! v", "[ 1 2 ] var w", "3 w push ! w", "{ 1 \"a\" } var m", "m 2 \"b\" insert ! m", "m \"a\" remove ! m",
            "w reverse ! w", "v w m", "drop" >>
     [] Theme = "defs" ->
-        << ": f 1 ;", ": g f 2 * ;", "late h", ": h 9 ;", "h", "g", ": f 7 ;", "f", "#( 3 const k #)", "k", "foo", "1 0 /" >>
+        << ": f 1 ;", ": g f 2 * ;", "late h", ": h 9 ;", "h", "g", ": f 7 ;", "f", "#( 3 const k #)", "k", "foo", "1 0 /", "u" >>
     [] Theme = "cursor" ->
         << "|01 02 03 04| open-bitstr", "u8", "4 bits", "close-bitstr", "big", "little", "u16", "9 seek", "8 seek", "remain offset",
-           "|ff| emit", "output", "1 print" >>
+           "|ff| emit", "|c3 d4| emit", "output", "1 print" >>
     [] Theme = "canvas" ->
-        << "2 2 d2-resize", "1 d2-color!", "0 0 d2-data!", "1 1 d2-data!", "0 0 d2-data", "d2-clear", "7 d2-color!", "d2-width", "[ 5 6 7 ] d2-palette!" >>
+        << "2 2 d2-resize", "1 d2-color!", "0 0 d2-data!", "1 1 d2-data!", "0 0 d2-data", "d2-clear", "7 d2-color!", "d2-width", "[ 5 6 7 ] d2-palette!",
+           "3 3 d2-resize", "0 d2-color!" >>
     [] Theme = "step" ->
         << "C:1 2 + 3 *", "C:: f 2 0 do I local x x drop loop ; f", "C:[ 1 2 ] foreach I loop", "N", "N", "R", "REC", "RUN", "9 var q", "q 1 + ! q" >>
 
 Calls == {Sources[k] : k \in 1..Len(Sources)}
 
+Prelude ==
+  CASE Theme = "bits"   -> "|12 34 56| var p p open-bitstr 4 bits drop 8 bits var s close-bitstr s |f| bitstr-append var s2"
+    [] Theme = "vars"   -> "5 var v [ 1 2 ] var w { 1 \"a\" } var m"
+    [] Theme = "defs"   -> ": f 1 ; : g f 2 * ; late h : u h 1 + ; : h 9 ; #( 3 const k #)"     \* u resolves h at its first call
+    [] Theme = "cursor" -> "|aa bb| emit |01 02 03 04| open-bitstr u8"
+    [] Theme = "canvas" -> "2 2 d2-resize [ 10 20 30 ] d2-palette! 1 d2-color! 0 0 d2-data! 2 d2-color! 1 0 d2-data!"
+    [] Theme = "step"   -> "REC"
+
 VARIABLES h, alive
 vars == <<h, alive>>
-Init == h = <<>> /\ alive = {1}
+H0 == IF Pre = "on" THEN << [k |-> "call", i |-> 1, j |-> 0, c |-> Prelude] >> ELSE <<>>
+Init == h = H0 /\ alive = {1}
 Act == \E i \in alive, c \in Calls : h' = Append(h, [k |-> "call", i |-> i, j |-> 0, c |-> c]) /\ UNCHANGED alive
 Clone == /\ alive # Ids
          /\ \E i \in alive : LET j == CHOOSE x \in Ids \ alive : \A y \in Ids \ alive : x <= y IN
               /\ h' = Append(h, [k |-> "clone", i |-> i, j |-> j, c |-> ""])
               /\ alive' = alive \cup {j}
-Next == Len(h) < L /\ (Act \/ Clone)
+Next == Len(h) < L + Len(H0) /\ (Act \/ Clone)
 Spec == Init /\ [][Next]_vars
 
 \* only histories that clone at least once say anything about C03
-Export == (Len(h) = L /\ \E k \in 1..L : h[k].k = "clone") => PrintT(<<"REPLAY", ToJson([theme |-> Theme, h |-> h])>>)
+Export == (Len(h) = L + Len(H0) /\ \E k \in 1..Len(h) : h[k].k = "clone") => PrintT(<<"REPLAY", ToJson([theme |-> Theme, h |-> h])>>)
 =============================================================================
